@@ -16,20 +16,20 @@ EXTENDS Naturals, Sequences, FiniteSets, TLC
 \* ------------------------------------------------------------------ the alphabet and its order
 Ord(c) == CASE c = "NL" -> 10 [] c = " " -> 32 [] c = "!" -> 33 [] c = "(" -> 40 [] c = ")" -> 41 [] c = "*" -> 42
             [] c = "+" -> 43 [] c = "-" -> 45 [] c = "." -> 46 [] c = "/" -> 47 [] c = "0" -> 48 [] c = "1" -> 49 [] c = "?" -> 63 [] c = "@" -> 64
-            [] c = "A" -> 65 [] c = "B" -> 66 [] c = "[" -> 91 [] c = "\\" -> 92 [] c = "]" -> 93 [] c = "^" -> 94 [] c = "_" -> 95
-            [] c = "a" -> 97 [] c = "b" -> 98 [] c = "c" -> 99 [] c = "|" -> 124 [] c = "U" -> 233 [] OTHER -> 255
-Chars == {"NL", " ", "!", "(", ")", "*", "+", "-", ".", "/", "0", "1", "?", "@", "A", "B", "[", "\\", "]", "^", "_", "a", "b", "c", "|", "U"}
+            [] c = "A" -> 65 [] c = "B" -> 66 [] c = "C" -> 67 [] c = "W" -> 87 [] c = "X" -> 88 [] c = "[" -> 91 [] c = "\\" -> 92 [] c = "]" -> 93 [] c = "^" -> 94 [] c = "_" -> 95
+            [] c = "a" -> 97 [] c = "b" -> 98 [] c = "c" -> 99 [] c = "|" -> 124 [] c = "V" -> 201 [] c = "U" -> 233 [] OTHER -> 255
+Chars == {"NL", " ", "!", "(", ")", "*", "+", "-", ".", "/", "0", "1", "?", "@", "A", "B", "C", "W", "X", "[", "\\", "]", "^", "_", "a", "b", "c", "|", "U", "V"}
 Range(lo, hi) == {c \in Chars : Ord(lo) <= Ord(c) /\ Ord(c) <= Ord(hi)}
 ClassNames == {"[:alpha:]", "[:digit:]", "[:upper:]", "[:lower:]", "[:space:]", "[:punct:]", "[:alnum:]"}
-InClass(c, cl) == CASE cl = "[:alpha:]" -> c \in {"a", "b", "c", "A", "B", "U"}
+InClass(c, cl) == CASE cl = "[:alpha:]" -> c \in {"a", "b", "c", "A", "B", "C", "W", "X", "U", "V"}
                     [] cl = "[:digit:]" -> c \in {"0", "1"}
-                    [] cl = "[:alnum:]" -> c \in {"a", "b", "c", "A", "B", "U", "0", "1"}
-                    [] cl = "[:upper:]" -> c \in {"A", "B"}
+                    [] cl = "[:alnum:]" -> c \in {"a", "b", "c", "A", "B", "C", "W", "X", "U", "V", "0", "1"}
+                    [] cl = "[:upper:]" -> c \in {"A", "B", "C", "W", "X", "V"}
                     [] cl = "[:lower:]" -> c \in {"a", "b", "c", "U"}
                     [] cl = "[:space:]" -> c \in {" ", "NL"}
                     [] cl = "[:punct:]" -> c \in {"!", "(", ")", "*", "+", "-", ".", "/", "?", "@", "[", "\\", "]", "^", "_", "|"}
                     [] OTHER -> FALSE
-Fold(c) == CASE c = "A" -> "a" [] c = "B" -> "b" [] OTHER -> c         \* case folding (ASCII letters of the alphabet)
+Fold(c) == CASE c = "A" -> "a" [] c = "B" -> "b" [] c = "C" -> "c" [] c = "V" -> "U" [] OTHER -> c         \* case folding (ASCII letters of the alphabet)
 ExtOpeners == {"?(", "*(", "+(", "@(", "!("}
 
 \* ------------------------------------------------------------------ bracket expressions
